@@ -132,12 +132,36 @@ MissTag(m) == IF m = "heartbeat" THEN "C08" ELSE "C09"
 DiscTime(r) == LET D == {j \in 1..Len(r.events) : r.events[j].e = "disconnect"}
                IN IF D = {} THEN -1 ELSE r.events[CHOOSE j \in D : TRUE].t
 
+\* Time passes while the store refuses every Save: nothing the session tries to send leaves, so both timer loops are silent.  What
+\* stays observable is what C09 demands whether or not the TestRequest could be sent: the disconnect after two silent periods (each
+\* may be noticed one polling step late), and not before.
+FailWalk(x, r, td, tEnd) ==
+  LET T == TinMs(x)
+      W == Win(TinMs(x))
+      live == x.timers /\ ~x.ctxDone /\ x.st \in {"SL", "WTR"} /\ (x.st = "WTR" => x.wtrLogged)
+      need == IF x.st = "SL" THEN 2 ELSE 1
+      earliest == x.lastIn + need * T
+      latest == x.lastIn + need * (T + W) + 2
+  IN IF r.outs # <<>> THEN Bad(x, "C19", r, "a message was transmitted although the store refused to save it", [outs |-> BriefSeq(r.outs)])
+     ELSE IF td >= 0 THEN
+            IF live /\ td >= earliest /\ td <= latest
+            THEN [s |-> [TimerDisconnect([x EXCEPT !.st = "WTR", !.wtrLogged = TRUE], td) EXCEPT !.now = tEnd], ok |-> TRUE]
+            ELSE Bad(x, "C09", r, "disconnect although the peer was not silent for two periods (store failing)",
+                     [at |-> td, lastIn |-> x.lastIn, st |-> x.st, earliest |-> earliest, latest |-> latest])
+     ELSE IF live /\ tEnd > latest
+            THEN Bad(x, "C09", r, "no disconnect although the peer was silent for two periods (the TestRequest could not be sent)",
+                     [by |-> tEnd, lastIn |-> x.lastIn, st |-> x.st, latest |-> latest])
+     ELSE IF live /\ x.st = "SL" /\ tEnd >= x.lastIn + T + W
+            THEN [s |-> [x EXCEPT !.now = tEnd, !.st = "WTR", !.wtrLogged = TRUE, !.lastIn = x.lastIn + T, !.outSeq = x.outSeq + 1, !.nsaves = x.nsaves + 1], ok |-> TRUE]
+     ELSE [s |-> [x EXCEPT !.now = tEnd], ok |-> TRUE]
+
 RECURSIVE AdvWalk(_, _, _, _, _)
 \* x: spec state; j: next output; td: pending disconnect time (-1: none); tEnd
 AdvWalk(x, r, j, td, tEnd) ==
   LET nextT == IF j <= Len(r.outs) THEN r.outs[j].t ELSE tEnd + 1
   IN
-  IF td >= 0 /\ td < nextT THEN
+  IF Failing(x) /\ j = 1 THEN FailWalk(x, r, td, tEnd)
+  ELSE IF td >= 0 /\ td < nextT THEN
      \* the disconnect notification comes first
      LET m == MissedBefore(x, td)
      IN IF m # "none" /\ m # "disconnect" THEN Bad(x, MissTag(m), r, m \o " not sent in time", [deadlineBefore |-> td, lastOut |-> x.lastOut, lastIn |-> x.lastIn, hb |-> x.hb])
@@ -202,6 +226,9 @@ StepResult(s0, r) ==
                       /\ ~ResendRangeOk(sp, a.b, IF a.e = 0 THEN sp.outSeq ELSE a.e)
          x1raw == CASE a.a = "run" -> Run(x0)
                     [] a.a = "relogon" -> Relogon(x0)
+                    \* the application rewinds the outgoing counter: numbers are used again, a retransmission gives what was LAST sent
+                    \* under a number (Emit overwrites the store entry)
+                    [] a.a = "resetout" -> [x0 EXCEPT !.outSeq = 0]
                     [] a.a = "send" -> AppSend(x0)
                     [] a.a = "llogout" -> LocalLogout(x0)
                     [] a.a = "stop" -> Stop(x0)
@@ -256,7 +283,7 @@ Next ==
   /\ l <= Len(Trace)
   /\ l' = l + 1
   /\ LET r == Trace[l]
-     IN IF r.k = "init" THEN s' = InitState(CfgOf(r.cfg)) /\ skip' = FALSE /\ appr' = FALSE
+     IN IF r.k = "init" THEN s' = [InitState(CfgOf(r.cfg)) EXCEPT !.saveFailFrom = r.cfg.saveFailFrom] /\ skip' = FALSE /\ appr' = FALSE
         ELSE /\ appr' = (appr \/ GoodLogon(s.cfg, r.a))
              /\ IF skip
                 THEN /\ UNCHANGED <<s, skip>>
